@@ -1,9 +1,33 @@
 import Drx.Drv.Util
+import Drx.Spec.Ast
+import Drx.Spec.Compile
 namespace Drx.Drv.Lspec
-open Drx Drx.Drv
+open Drx Drx.Drv Drx.Spec
 
-/-- commands of the `lspec` family (stub: nothing implemented yet) -/
+def charsOfHex (h : String) : Option (List Char) := (bytesOfHex h).map fun b => b.map fun x => Char.ofNat x.toNat
+def hexOfChars (s : List Char) : String := hexOfBytes (s.map fun c => UInt8.ofNat c.toNat)
+
+def namesOfSX : SX → Option (List Name)
+  | .list (_ :: xs) => xs.mapM SX.getName
+  | _ => none
+
+def hx (b : Bytes) : String := if b.isEmpty then "-" else hexOfBytes b
+
+/-- commands of the `lspec` family (see harness/lingo_gen.py) -/
 def run : List String → Option String
+  | ["compile", scrNum, hnames, hscript] => do
+    let n ← parseNat scrNum
+    let pre ← namesOfSX (← SX.parse (← charsOfHex hnames))
+    match Script.parse (← charsOfHex hscript) with
+    | none => some "error bad-sexpr"
+    | some s =>
+      match compile { pre, scrNum := n } s with
+      | .ok c => some s!"ok {hx c.lscr} {hx c.lnam} {" ".intercalate (c.handlerCode.map fun (_, b) => hx b)}"
+      | .error e => some s!"error {e}"
+  | ["canon", hscript] => do
+    match Script.parse (← charsOfHex hscript) with
+    | none => some "error bad-sexpr"
+    | some s => some (String.ofList s.render)
   | _ => none
 
 end Drx.Drv.Lspec
